@@ -347,6 +347,24 @@ def run(ctx):
             viol.append({'property': 'C07', 'kind': 'omen-alphabet-differs-from-trainer', 'loaded': str(loaded_e)[:200], 'trainer': 'nothing learned',
                          'witness': {'empty_omen_case': True}})
         dist['empty_omen_case'] = 1
+    # 3d. whatever the seed: words that are different strings and fold to the same string (final / medial sigma, micro sign / mu, long s):
+    # the trainer keeps them apart and writes both; the guesser and the scorer read back every line of every word file
+    tfc = os.path.join(root, 'fold_twins.txt')
+    twins = ['\u03ba\u03bf\u03c3\u03bc\u03bf\u03c2', '\u03ba\u03bf\u03c3\u03bc\u03bf\u03c3', '\u00b5torrent', '\u03bctorrent', '\u017ftop1', 'stop1', 'password', 'Password']
+    with open(tfc, 'w', encoding='utf-8') as f:
+        f.write('\n'.join(twins + twins[:4]) + '\n')
+    rdc = os.path.join(common.scratch_dir('rules'), 'c07twins')
+    okc, _ = common.train(tfc, rdc, ngram=3, coverage=0.6)
+    cases += 1
+    if okc:
+        gc_ = common.load_grammar(rdc)
+        for fn_ in sorted(os.listdir(os.path.join(rdc, 'Alpha'))):
+            on_disk = [ln.split('\t')[0] for ln in open(os.path.join(rdc, 'Alpha', fn_), encoding='utf-8').read().split('\n') if ln]
+            loaded = [v for g_ in gc_.grammar.get('A' + fn_.split('.')[0], []) for v in g_['values']]
+            if sorted(loaded) != sorted(on_disk):
+                viol.append({'property': 'C07', 'kind': 'guesser-words-differ-from-file', 'file': 'Alpha/' + fn_, 'loaded': loaded[:8], 'on_disk': on_disk[:8],
+                             'witness': {'fold_twins_case': True}})
+        dist['fold_twins_case'] = 1
     # 3b. whatever the seed: a list whose base-structure probabilities (count / total, each correctly rounded) add up to 0.9999999999999999 -
     # every number of grammar.txt is read back as that number by the guesser (no flag: nothing is rescaled) and by the scorer
     tfb = os.path.join(root, 'base_sum.txt')
